@@ -14,6 +14,7 @@ type GenCfg struct {
 	WRestart                                                    int // macro: break + release all + grant(accept)
 	WViv                                                        int // macro: two watchers on one resource, then valid / invalid / valid responses
 	WFailover                                                   int // macro: refuse/break a stream, establish another stream, respond
+	WRevert                                                     int // macro: establish the highest-priority pending stream and let that server answer
 	UnknownPct                                                  int // share of responses with an unregistered type URL
 	HoldPct                                                     int // share of watchers that hold their done callbacks
 	BadPct                                                      int // share of invalid resources inside responses
@@ -81,8 +82,14 @@ func genRes(rt *rapid.T, cfg GenCfg) []ResSpec {
 // GenOps draws one op or a macro of several ops.
 func GenOps(rt *rapid.T, cfg GenCfg) []Op {
 	total := cfg.WWatch + cfg.WUnwatch + cfg.WResp + cfg.WBreak + cfg.WGrant + cfg.WRelease + cfg.WAdvance + cfg.WRestart
-	total += cfg.WViv + cfg.WFailover
+	total += cfg.WViv + cfg.WFailover + cfg.WRevert
 	x := uniform(rt, total, "kind")
+	if x >= total-cfg.WRevert {
+		r := Op{K: "resp", S: 0, T: rapid.IntRange(0, 1).Draw(rt, "t"), Ver: rapid.IntRange(0, 3).Draw(rt, "ver"), Nonce: rapid.IntRange(0, 5).Draw(rt, "nonce")}
+		r.Res = genRes(rt, cfg)
+		return []Op{{K: "release", All: true}, {K: "grant", S: 0, Accept: true}, r}
+	}
+	total -= cfg.WRevert
 	if x >= total-cfg.WFailover {
 		// fail whichever stream attempt is next, bring up another server, let it answer
 		ops := []Op{{K: "release", All: true}}
